@@ -92,15 +92,20 @@ def regex_programs(thorough=False, seed=0):
     rnd = random.Random(seed * 31 + 5)
     pool = units + RX_TRICKY
 
-    def rand_rx(d):
+    pool_nc = [u for u in pool if "{" not in u]
+
+    def rand_rx(d, counted=True):
+        # counted repetition is not nested inside counted repetition: the unrolled automata grow multiplicatively and the compiler
+        # needs minutes for them, which says nothing about the property
         if d == 0 or rnd.random() < 0.3:
-            return rnd.choice(pool)
+            return rnd.choice(pool if counted else pool_nc)
         c = rnd.random()
         if c < 0.4:
-            return rand_rx(d - 1) + rand_rx(d - 1)
+            return rand_rx(d - 1, counted) + rand_rx(d - 1, counted)
         if c < 0.7:
-            return "(" + rand_rx(d - 1) + "|" + rand_rx(d - 1) + ")"
-        return "(" + rand_rx(d - 1) + ")" + rnd.choice(RX_OPS[1:])
+            return "(" + rand_rx(d - 1, counted) + "|" + rand_rx(d - 1, counted) + ")"
+        op = rnd.choice(RX_OPS[1:] if counted else RX_OPS[1:4])
+        return "(" + rand_rx(d - 1, counted and "{" not in op) + ")" + op
     for _ in range(1500 if thorough else 150):
         rxs.append(rand_rx(3))
     for rx in RX_TRICKY + rxs:
